@@ -321,7 +321,43 @@ def bounded(rep, tier):
         rep.add_bounded(Bounded(cid, False, inp, obs, 'one literal, read back as the value', bound=f'len<={maxlen}'))
 
 
+def stateless_obligation(rep, prop):
+    """a renderer object keeps no state between calls: outside __init__ no method stores to / mutates an attribute of self (so the text rendered for a
+    tree cannot depend on what the same renderer rendered before)"""
+    from vlib import frames
+    sites = frames.self_state_writes(RENDER, 'SqlalchemyRender')
+    oid = f'{prop}.stateless'
+    clause = 'SqlalchemyRender methods other than __init__ do not write attributes of self (no per-renderer caches or modes)'
+    if not sites:
+        rep.proved(oid, 'frames', 'no store to / mutation of self.* outside __init__', function=f'{RENDER}:SqlalchemyRender', clause=clause)
+    else:
+        rep.failed(oid, 'frames', f'per-renderer state written at run time: {[ (s_.where, s_.text) for s_ in sites][:3]}', function=f'{RENDER}:SqlalchemyRender', clause=clause,
+                   replay=replay_reused_renderer())
+
+
+def replay_reused_renderer():
+    """history witness: statements rendered by one renderer vs each rendered by a fresh renderer"""
+    from mindsdb_sql import parse_sql
+    from mindsdb_sql.render.sqlalchemy_render import SqlalchemyRender
+    seqs = [['INSERT INTO t (a, b) VALUES (1, 2)', 'INSERT INTO t (b, a) VALUES (10, 20)', 'INSERT INTO t (b) VALUES (7)', 'UPDATE t SET b = 1 WHERE a = 2', 'DELETE FROM t WHERE b = 3'],
+            ['SELECT 1, 1.0, true', 'SELECT 1.0, 1, 2', 'SELECT true, 1'], ['SELECT `Order Id` FROM t', 'SELECT a AS `Order Id` FROM `Order Id`'],
+            ["SELECT 'a''b', 'c'", "SELECT 'c', 'a''b' FROM t WHERE x = 'c'"]]
+    for dn in ('mysql', 'postgresql', 'sqlite', 'mssql'):
+        for seq in seqs:
+            shared = SqlalchemyRender(dn)
+            for i, sql in enumerate(seq):
+                try:
+                    want = SqlalchemyRender(dn).get_string(parse_sql(sql), with_failback=False)
+                    got = shared.get_string(parse_sql(sql), with_failback=False)
+                except Exception:
+                    continue
+                if got != want:
+                    return {'input': f'[{dn}] {seq[:i + 1]}', 'dialect': 'mindsdb', 'fires': True, 'observed': f'after {seq[:i]} the renderer gives `{" ".join(got.split())}`', 'expected': f'`{" ".join(want.split())}` (fresh renderer)'}
+    return {'input': 'statement sequences on one renderer', 'dialect': 'mindsdb', 'fires': False, 'observed': 'same text as a fresh renderer'}
+
+
 def check(rep, tier):
+    stateless_obligation(rep, 'C07')
     rep.dropped = 'nested LiteralCompiler.render_literal_value located by name inside render_dml_query / render_ddl_query; str branch extracted by vlib/codec.py'
     rep.assume('SQLAlchemy: literal_binds routes each literal through render_literal_value; named paramstyle does not double %',
                'target scanners (mysql default sql_mode; postgresql standard_conforming_strings=on; sqlite/mssql/oracle: doubling only) are specifications')
